@@ -244,8 +244,60 @@ def migrate_copies_after_source_open(repo=None):
                               "diag": "syntactic dominance check failed: " + "; ".join(why), "text": src[start:end][:6000]})
     return rep
 
+
+def drop_joins_workers_before_kill_logs(repo=None):
+    """C03: the shutdown drain (DbInner::kill_logs) assumes that no worker thread touches the pipeline any more. Text dominance on
+    Db::drop_inner: the shutdown signal and the join of every worker thread the handle holds stand at the top level of the function
+    in front of the kill_logs call, which stands in front of the release of the directory lock."""
+    repo = repo or scratch.REPO
+    rep = {"unit": "syntactic:drop_joins_workers_before_kill_logs", "status": "undecided", "reason": "", "failed": [],
+           "named": ["U33.drop.every_worker_is_joined_before_the_drain"], "obligations": 1, "verified": 0, "errors": 0,
+           "cmd": "text dominance check on Db::drop_inner in src/db.rs", "wall_s": 0.0, "functions": ["db::Db::drop_inner"],
+           "trusted_scan": {"syntactic-check (not a proof)": 1}, "smt_s": 0}
+    try:
+        src = open(os.path.join(repo, "src/db.rs")).read()
+        start, fnpos, body_open, end = extract.find_fn(src, "drop_inner", impl="Db")
+        m = re.search(r"pub struct Db\s*\{(.*?)\n\}", src, re.S)
+    except (extract.LostAnchor, OSError) as e:
+        rep["reason"] = "drop_inner not found: %s" % e
+        return rep
+    body = re.sub(r"//[^\n]*", "", src[body_open:end])
+    kill = re.search(r"\.kill_logs\s*\(", body)
+    if not kill:
+        rep["reason"] = "no kill_logs call in drop_inner (code restructured): undecided by this text check"
+        return rep
+    threads = re.findall(r"(\w+_thread)\s*:\s*Option<\s*(?:thread::|std::thread::)?JoinHandle", m.group(1)) if m else []
+    if not threads:
+        rep["reason"] = "no worker thread handles found in struct Db (code restructured): undecided by this text check"
+        return rep
+    why = []
+    sd = re.search(r"\.shutdown\s*\(\s*\)", body)
+    if not sd or sd.start() > kill.start():
+        why.append("the workers are not told to shut down before the drain")
+    for t in threads:
+        tk = re.search(r"self\.%s\.take\(\)" % re.escape(t), body)
+        if not tk or tk.start() > kill.start():
+            why.append("worker thread `%s` is not joined before the drain" % t)
+            continue
+        seg = body[tk.start():kill.start()]
+        if not re.search(r"\.join\s*\(\s*\)", seg):
+            why.append("worker thread `%s` is taken but not joined before the drain" % t)
+    un = re.search(r"\.unlock\s*\(\s*\)", body)
+    if un and un.start() < kill.start():
+        why.append("the directory lock is released before the drain")
+    if not why:
+        rep["status"] = "verified"
+        rep["verified"] = 1
+    else:
+        rep["status"] = "failed"
+        rep["errors"] = 1
+        rep["failed"].append({"obligation": rep["named"][0], "clause": "; ".join(why), "function": "Db::drop_inner",
+                              "diag": "syntactic dominance check failed: " + "; ".join(why), "text": src[start:end][:6000]})
+    return rep
+
 CHECKS = {"commit_raw_checks_before_publish": commit_raw_checks_before_publish,
           "claim_tree_values_checks_before_claim": claim_tree_values_checks_before_claim,
           "commit_changes_claims_nothing_before_validation": commit_changes_claims_nothing_before_validation,
           "btree_commit_sorts_stably": btree_commit_sorts_stably,
-          "migrate_copies_after_source_open": migrate_copies_after_source_open}
+          "migrate_copies_after_source_open": migrate_copies_after_source_open,
+          "drop_joins_workers_before_kill_logs": drop_joins_workers_before_kill_logs}
